@@ -205,12 +205,13 @@ let do_diag rest =
 (* cli <id> strict src out openin openout read parse compile *)
 let do_cli rest =
   match String.split_on_char ' ' rest with
-  | [cid; st; sr; ou; a; b; c; d; e] ->
+  | [cid; st; sr; ou; a; b; c; d; e; w] ->
     let bb x = (x = "1") in
     let i = { ci_strict = bb st; ci_src = (if sr = "file" then SrcFile else SrcStdin);
               ci_out = (match ou with "unset" -> OutUnset | "named" -> OutNamed | _ -> OutDash);
               ci_open_in_ok = bb a; ci_open_out_ok = bb b; ci_read_ok = bb c; ci_parse_ok = bb d;
-              ci_compile = (match e with "ok" -> CompOk | "warn" -> CompWarn | "tmpl" -> CompTemplateErr | _ -> CompInvalidGo) } in
+              ci_compile = (match e with "ok" -> CompOk | "warn" -> CompWarn | "tmpl" -> CompTemplateErr | _ -> CompInvalidGo);
+              ci_write_ok = bb w } in
     let o = x_cli_model i in
     let ds = function DestGrammarGo -> "grammar.go" | DestNamed -> "named" | DestStdout -> "stdout" in
     print_endline (Printf.sprintf "cli %s :: exit0=%d msg=%d complete=%s" cid (if o.co_exit_zero then 1 else 0) (if o.co_message then 1 else 0)
